@@ -4,6 +4,8 @@ package syncer
 
 import (
 	"context"
+	"maps"
+	"time"
 
 	"github.com/PowerDNS/lightningstream/lmdbenv/header"
 	"github.com/PowerDNS/lightningstream/snapshot"
@@ -47,4 +49,9 @@ func VerifDupSortHackEncode(dbiMsg *snapshot.DBI) (*snapshot.DBI, error) {
 
 func VerifDupSortHackDecode(dbiMsg *snapshot.DBI) (*snapshot.DBI, error) {
 	return dupSortHackDecode(dbiMsg)
+}
+
+// VerifLastByInstance returns a copy of the per-instance "last loaded snapshot" bookkeeping.
+func (s *Syncer) VerifLastByInstance() map[string]time.Time {
+	return maps.Clone(s.lastByInstance)
 }
